@@ -256,7 +256,14 @@ fn root_list(rng: &mut Rng, i: usize) -> String {
         // lines that are no entries between / around the entries
         let pool: [&[u8]; 8] = [b"", b"no comma here", b"Name,abc", b"Name,", b"#Sheet,5", b"# a comment", b"x,1,y", b"Name,12x"];
         let nj = rng.range(1, 3) as usize;
-        let js: Vec<String> = (0..nj).map(|_| { let j = *rng.pick(&pool); if j.is_empty() { "e".to_string() } else { hex(j) } }).collect();
+        let mut js: Vec<String> = (0..nj).map(|_| { let j = *rng.pick(&pool); if j.is_empty() { "e".to_string() } else { hex(j) } }).collect();
+        if rng.chance(1, 2) {
+            // CR LF line ends throughout (with or without lines that are no entries)
+            if rng.chance(1, 2) {
+                js.clear();
+            }
+            js.insert(0, hex(b"crlf"));
+        }
         return format!("namesj {} {} {}", ver, es.join(","), js.join(","));
     }
     format!("names {} {}", ver, if es.is_empty() { "-".to_string() } else { es.join(",") })
